@@ -54,6 +54,12 @@ def node_impl(n):
     if k == "raising0":
         from harness.lib import components as _c
         return {"processor": _c.make_raising_noargs(n["exc"])}
+    if k == "inplace":
+        from harness.lib import components as _c
+        return {"processor": _c.VerifScaleInPlaceOperation}
+    if k == "longrewrite":
+        from harness.lib import components as _c
+        return {"processor": _c.make_long_rewriter(n.get("key", "label"))}
     if k == "note":
         from harness.lib import components as _c
         return {"processor": _c.VerifNoteOperation, "parameters": {"note": n["note"]}} if "note" in n else {"processor": _c.VerifNoteOperation}
@@ -79,7 +85,7 @@ def node_coq(n):
         raise pg.Unsupported("one-shot iterator component (direct oracle only)")
     if k == "baddesc":
         raise pg.Unsupported("descriptor-valued parameter (direct oracle only)")
-    if k in ("failmsg", "note", "raising", "wvalue", "raising0"):
+    if k in ("failmsg", "note", "raising", "wvalue", "raising0", "inplace", "longrewrite"):
         raise pg.Unsupported("unusual-string / unusual-exception / unusual-value component (direct oracle only)")
     if k == "failing0":
         return "(mkNode lib_failing [] None)"     # the model's error carries the class, not the message
@@ -102,7 +108,7 @@ def node_meta(n):
 
 
 def node_repr(n):
-    if n["k"] in ("interrupt", "datesweep", "streamsrc", "streamsum", "sumitems", "baddesc", "failing0", "failmsg", "note", "raising", "wvalue", "raising0"):
+    if n["k"] in ("interrupt", "datesweep", "streamsrc", "streamsum", "sumitems", "baddesc", "failing0", "failmsg", "note", "raising", "wvalue", "raising0", "inplace", "longrewrite"):
         c = node_impl(n)
         c = json.loads(json.dumps(c, default=lambda o: getattr(o, "__name__", None) or str(o)))
         return c
@@ -177,10 +183,22 @@ class ExecLog:
             except Exception:
                 return dict(ctx) if isinstance(ctx, dict) else {}
 
+        def data_key(v):
+            """content of a payload AT THIS MOMENT (a processor may change the object in place later)"""
+            tn = type(v).__name__
+            try:
+                if tn == "FloatDataType":
+                    return "F:" + repr(float(v.data))
+                if tn == "FloatDataCollection":
+                    return "C:" + repr([float(x.data) for x in v])
+            except Exception:  # noqa
+                pass
+            return tn
+
         def process(node, payload=None):
             if not isinstance(node, _PipelineNode) or payload is None:
                 return orig_process(node, payload)
-            e = {"node_class": type(node).__name__,
+            e = {"node_class": type(node).__name__, "data_pre_key": data_key(payload.data), "data_post_key": None,
                  "proc_ref": "%s.%s" % (type(node.processor).__module__, type(node.processor).__qualname__),
                  "ctx_pre": snap(payload.context), "data_pre": payload.data, "params": [], "t0": time.time(),
                  "exc": None, "ctx_post": None, "data_post": None, "ctx_obj": payload.context}
@@ -190,11 +208,13 @@ class ExecLog:
                 out = orig_process(node, payload)
                 e["ctx_post"] = snap(out.context)
                 e["data_post"] = out.data
+                e["data_post_key"] = data_key(out.data)
                 return out
             except BaseException as ex:
                 e["exc"] = ex
                 e["ctx_post"] = snap(payload.context)
                 e["data_post"] = payload.data
+                e["data_post_key"] = data_key(payload.data)
                 raise
             finally:
                 e["t1"] = time.time()
@@ -872,6 +892,12 @@ def unusual_value_cases(n):
                     "data0": None, "ctx0": {}, "kind": "unusual-value:own-key:" + kind, "direct_only": True})
         out.append({"nodes": base + [{"k": "wvalue", "value": kind, "key": "note"}, {"k": "note"}, {"k": "probe", "ckey": "k"}],
                     "data0": None, "ctx0": {}, "kind": "unusual-value:as-parameter:" + kind, "direct_only": True})
+    # a processor that changes its input object in place and returns it; a long string rewritten in its last character only
+    out.append({"nodes": base + [{"k": "inplace"}, {"k": "add", "cfg": {"addend": 1}}, {"k": "inplace"}, {"k": "probe", "ckey": "k"}],
+                "data0": None, "ctx0": {}, "kind": "unusual-value:in-place-data-update", "direct_only": True, "all_details": True})
+    from harness.lib.components import LONG_PREFIX
+    out.append({"nodes": base + [{"k": "longrewrite"}, {"k": "longrewrite"}, {"k": "probe", "ckey": "k"}],
+                "data0": None, "ctx0": {"label": LONG_PREFIX + "A"}, "kind": "unusual-value:long-string-rewritten", "direct_only": True, "all_details": True})
     for exc in ("KeyError", "VerifMissingField", "ValueError", "IndexError", "StopIteration", "OSError")[: max(3, n // 3)]:
         out.append({"nodes": base + [{"k": "raising0", "exc": exc}, {"k": "probe", "ckey": "k"}], "data0": None, "ctx0": {},
                     "kind": "exception-without-arguments:" + exc, "direct_only": True})
